@@ -40,6 +40,19 @@ CLAIMED = {
          'C18_parse proves that a node file yields every host exactly once (repeated lines are counted, blank lines are not hosts), C18_parse_cpn that a configured cores_per_node fixes the slot count, C18_node_list that indices are 0..n-1 and unique with the configured cores/GPUs per node, markDown_spec the blocked-core marking, and C18_final that whenever initialisation succeeds the offered list is non-empty, no longer than the requested node count, duplicate-free in its indices, disjoint from the agent and service node lists, and made only of allocated nodes with blocked cores/GPUs marked. The model initRM is compared with RMInfo produced by the real _init_from_scratch of seven resource managers on generated node files and environments; the registry hand-over (RMInfo -> dict -> RMInfo) is checked to be the identity on every case.',
          'Trusted: Lean kernel, harness (environment variables, node files, scripted ssh probe and qstat failure, host-name abstraction); PBSPro exec_vnode parsing, SLURM host-list expressions (ru.get_hostlist) and YARN are not modelled.',
          'DESIGN.md section 6 C18'),
+ 'C01': ('Lean 4 proof (loop invariant of the per-node search: strictly increasing free cores, GPU share accounting, lfs/mem budget; effect of marking) over a model that reproduces the real _schedule_tasks loop step for step + sampled differential tie and property monitor',
+         'C01_grant_fits_node proves for every node state, request and slot count that what the model of Continuous._find_resources returns names only free, pairwise distinct cores, only existing non-blocked GPUs with share sums <= 1 GPU (incl. what the node map shows) and fits the node-local storage and memory left; C01_held_not_regranted proves that cores marked BUSY by _change_slot_states are never returned by a later search; C01_app_slots_witness exhibits the recorded finding F3. The lift to whole histories of the scheduling loop (wait pool, lazy_bisect, releases, cancellations) is NOT yet a theorem: it is carried by the exact comparison of the model with the real loop (events, node map, wait pool, counters after every iteration) and by the monitor that re-checks disjointness of all held placements on the implementation (partial).',
+         'Trusted: Lean kernel, harness (scripted queues: which messages an iteration finds is an input); dyadic GPU shares; Continuous scheduler only (jsrun/hombre/flux variants and the application-level NodeList are not modelled). KNOWN FINDING F3 (application-supplied slots).',
+         'DESIGN.md section 6 C01'),
+ 'C02': ('Lean 4 proof (shape clause of the same loop invariant; rejection rules by unfolding schedule_task) + sampled differential tie and monitor',
+         'C02_slot_shape proves that every slot of a grant lies on the searched node and holds exactly cores_per_rank distinct cores, the requested GPU amount (k distinct whole GPUs / one GPU with exactly the share / none) and the requested lfs and mem; C02_slot_count bounds the number of slots and gives exactness for non-partial searches; C02_reject and C02_nonmpi_single_node prove that per-rank needs beyond one node and non-MPI tasks beyond one node are errors, never smaller grants; C02_ranks_per_node bounds the slots taken per node. Rank count over several nodes and the colocate clause are checked by the monitor on the implementation and by the exact model comparison (partial).',
+         'Trusted: as C01.', 'DESIGN.md section 6 C02'),
+ 'C03': ('Lean 4 proof (list-update algebra: set-busy then set-free is the identity on free entries; counter arithmetic) + sampled differential tie and monitor',
+         'C03_release_inverse proves that marking a slot BUSY and FREE again restores the node (cores, GPUs, lfs, mem) exactly, for every slot naming free resources; C03_held_is_busy characterises the node map while held; C03_counter_alloc / C03_counter_release give the _active_cnt arithmetic; C03_app_slots_witness exhibits F3 (counter goes negative). Capacity restored at quiescence and exactly-once release over whole histories are checked by the monitor on the real loop (node map = initial map minus held placements after every iteration) - partial; the executor half is C07.',
+         'Trusted: as C01.', 'DESIGN.md section 6 C03'),
+ 'C04': ('Lean 4 proof (counting conservation for the intake and placement steps, unfolding of the can-never-be-scheduled rule and of the first lazy_bisect step) + sampled differential tie (incl. ru.lazy_bisect inside the real loop) and monitor',
+         'C04_incoming_conserve and C04_drain_conserve prove that every task handed to the scheduler intake ends exactly once as started, failed or parked (tasks with ranks <= 0 failed once); C04_never_rule proves that a task is failed for lack of resources only when nothing holds resources; C04_last_checked_first proves that lazy_bisect examines the last (smallest) waiting task first so a fitting one is started; C04_app_slots_witness exhibits F3. The whole-run clauses (exactly one place at any time, started as soon as resources are released, priorities) are checked by the monitor on the real loop and the exact model comparison (partial).',
+         'Trusted: as C01; ru.lazy_bisect (ratio 0.5) is modelled and exercised through the real loop.', 'DESIGN.md section 6 C04'),
 }
 
 NOT_YET = {}
